@@ -29,6 +29,14 @@ type C09Case struct {
 	From     int            `json:"from"`      // index of the requesting file
 	EditMode int            `json:"edit_mode"` // 0 none, 1 unsaved: extra transaction appended, 2 unsaved: last entry dropped
 	Extra    *m.Tx          `json:"extra,omitempty"`
+	EditFile *int           `json:"edit_file,omitempty"` // the open file that carries the unsaved edit; nil: the requesting file
+}
+
+func (c *C09Case) editFile() int {
+	if c.EditFile != nil {
+		return *c.EditFile
+	}
+	return c.From
 }
 
 type occ struct {
@@ -81,7 +89,7 @@ func (t *occTable) addFile(fi int, j *m.Journal, r *m.Rendered) {
 }
 
 func c09Buffer(c *C09Case) *m.Journal {
-	j := c.WS.Files[c.From].Journal
+	j := c.WS.Files[c.editFile()].Journal
 	switch c.EditMode {
 	case 1:
 		nj := &m.Journal{NL: j.NL, Entries: append(append([]m.Entry{}, j.Entries...), m.Entry{Tx: c.Extra, Blank: 1})}
@@ -129,18 +137,30 @@ func c09Check(c *C09Case) (ds []ev.Discrepancy, stats map[string]int) {
 	if err != nil {
 		return []ev.Discrepancy{ev.D("c09.harness", "%v", err)}, stats
 	}
-	bufJ := c09Buffer(c)
-	bufR := m.Render(bufJ)
+	ef := c.editFile()
+	editJ := c09Buffer(c)
+	editR := m.Render(editJ)
 	if _, err := h.OpenAndWait(uris[c.From], disk[c.From].Text); err != nil {
 		return []ev.Discrepancy{ev.D("c09.harness", "%v", err)}, stats
 	}
+	if ef != c.From {
+		if _, err := h.OpenAndWait(uris[ef], disk[ef].Text); err != nil {
+			return []ev.Discrepancy{ev.D("c09.harness", "%v", err)}, stats
+		}
+		defer func() { _ = h.Close(uris[ef]) }()
+	}
 	if c.EditMode != 0 {
-		_ = h.Change(uris[c.From], 2, []refclient.Change{{Text: bufR.Text}})
+		_ = h.Change(uris[ef], 2, []refclient.Change{{Text: editR.Text}})
 		if err := h.Quiesce(); err != nil {
 			return []ev.Discrepancy{ev.D("c09.harness", "%v", err)}, stats
 		}
 	}
 	defer func() { _ = h.Close(uris[c.From]); _ = h.Quiesce() }()
+	// the text of the requesting file as the client holds it
+	bufJ, bufR := c.WS.Files[c.From].Journal, disk[c.From]
+	if ef == c.From {
+		bufJ, bufR = editJ, editR
+	}
 
 	// scope and occurrence table
 	scopeRoot := c.From
@@ -153,8 +173,8 @@ func c09Check(c *C09Case) (ds []ev.Discrepancy, stats map[string]int) {
 	tab := newOccTable()
 	for _, fi := range scope {
 		r, j := disk[fi], c.WS.Files[fi].Journal
-		if fi == c.From {
-			r, j = bufR, bufJ
+		if fi == ef {
+			r, j = editR, editJ
 		}
 		texts[fi], journals[fi] = r, j
 		tab.addFile(fi, j, r)
@@ -353,9 +373,18 @@ func TestC09(t *testing.T) {
 		if c.EditMode == 1 {
 			c.Extra = gen.GenTx(t, p, pools, gen.TxOpts{MaxPostings: 3, MaxScale: 2, MaxDigits: 4})
 		}
+		if c.EditMode != 0 && !disabled("c09.edit-other-file") && rapid.Bool().Draw(t, "editother") {
+			// the unsaved edit sits in another open file of the requesting file's scope
+			scopeRoot := c.From
+			if c.Root {
+				scopeRoot = 0
+			}
+			ef := rapid.SampledFrom(ws.Reachable(scopeRoot)).Draw(t, "editfile")
+			c.EditFile = &ef
+		}
 		ds, st := c09Check(c)
 		nt := st["symbol_in_2_files"] > 0 || c.From != 0
-		cls := []string{fmt.Sprintf("root:%v", c.Root), fmt.Sprintf("from-root-file:%v", c.From == 0), fmt.Sprintf("edit:%d", c.EditMode), fmt.Sprintf("files:%d", len(ws.Files))}
+		cls := []string{fmt.Sprintf("root:%v", c.Root), fmt.Sprintf("from-root-file:%v", c.From == 0), fmt.Sprintf("edit:%d", c.EditMode), fmt.Sprintf("files:%d", len(ws.Files)), fmt.Sprintf("edit-in-other-file:%v", c.EditMode != 0 && c.editFile() != c.From)}
 		recC09.Case(nt, mustJSON(c), cls...)
 		for k, v := range st {
 			recC09.Count(k, int64(v))
